@@ -225,3 +225,148 @@ impl Dfa {
         suite
     }
 }
+
+// ---------------------------------------------------------------------------
+// Mealy machines (sequential string functions): f(w.a) = f(w) . out(state, a)
+// ---------------------------------------------------------------------------
+
+pub struct Mealy {
+    pub nsym: usize,
+    pub trans: Vec<Vec<usize>>,
+    /// out[state][symbol] = what is appended to the result
+    pub out: Vec<Vec<String>>,
+}
+
+impl Mealy {
+    pub fn run(&self, word: &[usize]) -> String {
+        let mut s = 0;
+        let mut o = String::new();
+        for a in word {
+            o.push_str(&self.out[s][*a]);
+            s = self.trans[s][*a];
+        }
+        o
+    }
+
+    fn outputs_from(&self, mut s: usize, word: &[usize]) -> Vec<&str> {
+        let mut v = Vec::with_capacity(word.len());
+        for a in word {
+            v.push(self.out[s][*a].as_str());
+            s = self.trans[s][*a];
+        }
+        v
+    }
+
+    pub fn state_cover(&self) -> Vec<Vec<usize>> {
+        let n = self.trans.len();
+        let mut cover: Vec<Option<Vec<usize>>> = vec![None; n];
+        cover[0] = Some(vec![]);
+        let mut q = VecDeque::from([0usize]);
+        while let Some(s) = q.pop_front() {
+            for a in 0..self.nsym {
+                let t = self.trans[s][a];
+                if cover[t].is_none() {
+                    let mut w = cover[s].clone().unwrap();
+                    w.push(a);
+                    cover[t] = Some(w);
+                    q.push_back(t);
+                }
+            }
+        }
+        cover.into_iter().map(|c| c.unwrap_or_default()).collect()
+    }
+
+    /// words whose output sequences tell every pair of (distinct, reachable) states apart;
+    /// Err if two states are equivalent (the machine handed in is not minimal)
+    pub fn characterization_set(&self) -> Result<Vec<Vec<usize>>, String> {
+        let n = self.trans.len();
+        let mut w: Vec<Vec<usize>> = Vec::new();
+        for s in 0..n {
+            for t in s + 1..n {
+                if w.iter().any(|word| self.outputs_from(s, word) != self.outputs_from(t, word)) {
+                    continue;
+                }
+                let mut seen: HashMap<(usize, usize), (usize, usize, usize)> = HashMap::new();
+                let mut q = VecDeque::from([(s, t)]);
+                let mut found: Option<Vec<usize>> = None;
+                'bfs: while let Some((x, y)) = q.pop_front() {
+                    for a in 0..self.nsym {
+                        if self.out[x][a] != self.out[y][a] {
+                            let mut word = vec![a];
+                            let mut cur = (x, y);
+                            while cur != (s, t) {
+                                let (px, py, b) = seen[&cur];
+                                word.push(b);
+                                cur = (px, py);
+                            }
+                            word.reverse();
+                            found = Some(word);
+                            break 'bfs;
+                        }
+                        let p = (self.trans[x][a], self.trans[y][a]);
+                        if p.0 != p.1 && p != (s, t) && !seen.contains_key(&p) {
+                            seen.insert(p, (x, y, a));
+                            q.push_back(p);
+                        }
+                    }
+                }
+                match found {
+                    Some(word) => w.push(word),
+                    None => return Err(format!("states {} and {} of the specification machine are equivalent", s, t)),
+                }
+            }
+        }
+        if w.is_empty() {
+            w.push(vec![]);
+        }
+        w.sort();
+        w.dedup();
+        Ok(w)
+    }
+
+    /// prefix-closed W-method suite for `m` extra states
+    pub fn wmethod_suite(&self, m: usize) -> Result<Vec<Vec<usize>>, String> {
+        let cover = self.state_cover();
+        let w = self.characterization_set()?;
+        let mut prefixes: Vec<Vec<usize>> = cover.clone();
+        for c in &cover {
+            for a in 0..self.nsym {
+                let mut p = c.clone();
+                p.push(a);
+                prefixes.push(p);
+            }
+        }
+        prefixes.sort();
+        prefixes.dedup();
+        let mut mids: Vec<Vec<usize>> = vec![vec![]];
+        let mut frontier: Vec<Vec<usize>> = vec![vec![]];
+        for _ in 0..m {
+            let mut next = Vec::new();
+            for f in &frontier {
+                for a in 0..self.nsym {
+                    let mut g = f.clone();
+                    g.push(a);
+                    next.push(g);
+                }
+            }
+            mids.extend(next.iter().cloned());
+            frontier = next;
+        }
+        let mut set: std::collections::BTreeSet<Vec<usize>> = std::collections::BTreeSet::new();
+        for p in &prefixes {
+            for mid in &mids {
+                for suf in &w {
+                    let mut t = p.clone();
+                    t.extend_from_slice(mid);
+                    t.extend_from_slice(suf);
+                    // prefix closure: the per-symbol outputs are observed as differences of
+                    // the results on consecutive prefixes
+                    for k in 0..=t.len() {
+                        set.insert(t[..k].to_vec());
+                    }
+                }
+            }
+        }
+        Ok(set.into_iter().collect())
+    }
+}
